@@ -212,7 +212,7 @@ fn cursor_of(recs: &[Rec], info: &SrcInfo) -> usize {
     for r in recs {
         match &r.res {
             Res::Items { announced, items, begin, .. } => {
-                let (s, l) = if *announced != usize::MAX { (items.first().map(|i| i.id as usize).unwrap_or(*begin), *announced) } else { (items[0].id as usize, 1) };
+                let (s, l) = if *announced != usize::MAX { (items.first().map(|i| (i.id as usize).wrapping_sub(i.idx.wrapping_sub(*begin))).unwrap_or(*begin), *announced) } else { (items[0].id as usize, 1) };
                 end = end.max(s + l);
             }
             Res::Opaque { .. } | Res::End | Res::Skip => ended = true,
@@ -535,7 +535,7 @@ struct GridCase {
     prefix: u8,
     n: usize,
     buffered: bool,
-    /// 0 next x3, 1 chunk(2), 2 len+has_more, 3 skip;next;len, 4 into_seq_iter, 5 chunk(MAX) again
+    /// 0 next x3, 1 chunk(2), 2 len+has_more, 3 skip;next;len, 4 into_seq_iter, 5 chunk(MAX) again, 6 for_each(1) twice then fold(2)
     cont: u8,
 }
 
@@ -748,6 +748,28 @@ impl Visitor for GridVisitor {
                 }
                 return Ok(());
             }
+            6 => {
+                // everything that is left is visited exactly once, in order of position; a second call visits nothing
+                // (sources of astronomical length are left out: if the cursor is wrong there, for_each never ends)
+                if m.rem() <= 64 && m.len <= (1 << 20) {
+                    let from = m.cur.min(m.len);
+                    let mut seen: Vec<u128> = Vec::new();
+                    it.for_each(1, |x| seen.push(x.ident(info).id as u128));
+                    let expect: Vec<u128> = (from..m.len).collect();
+                    if seen != expect {
+                        return Err(format!("for_each(1) visited positions {:?}, expected {:?}", seen, expect));
+                    }
+                    m.cur = m.len.max(m.cur) + 1;
+                    let mut again = 0usize;
+                    it.for_each(1, |_| again += 1);
+                    it.enumerate_for_each(1, |_, _| again += 1);
+                    let folded = it.fold(2, 0usize, |a, _| a + 1);
+                    if again != 0 || folded != 0 {
+                        return Err(format!("for_each / fold on the exhausted iterator visited {} + {} elements", again, folded));
+                    }
+                    m.cur += 3;
+                }
+            }
             5 => {
                 expect_chunk(&it, M, &mut m, info, "continuation chunk(MAX)")?;
                 for _ in 0..3 {
@@ -822,6 +844,7 @@ pub fn cmd_grid(a: &Args) -> i32 {
     let nshards = a.u64("nshards", 1);
     let only = a.get("only").map(|s| s.split(':').next().unwrap().parse::<u64>().unwrap());
     let reduced = a.flag("reduced");
+    let only_cont = a.get("only-cont").map(|s| s.parse::<u64>().unwrap());
     if a.flag("boxed") {
         BOXED.store(true, Relaxed);
     }
@@ -847,7 +870,7 @@ pub fn cmd_grid(a: &Args) -> i32 {
             .set("prefix", J::s(["none", "1", "len-1", "len"][gc.prefix as usize]))
             .set("chunk_size", J::S(sz(gc.n, range.map(|(x, y)| y.saturating_sub(x)).unwrap_or(len))))
             .set("style", J::s(if gc.buffered { "buffered" } else { "one-shot" }))
-            .set("continuation", J::s(["next x3", "chunk(2);next", "len;next;len", "skip;next;len", "into_seq_iter", "chunk(MAX);next x3"][gc.cont as usize]));
+            .set("continuation", J::s(["next x3", "chunk(2);next", "len;next;len", "skip;next;len", "into_seq_iter", "chunk(MAX);next x3", "for_each(1) x2;enumerate_for_each(1);fold(2)"][gc.cont as usize]));
         let res = catch_unwind(AssertUnwindSafe(|| with_kind(kind, len, salt, hint, range, GridVisitor { gc })));
         let mut problems: Vec<String> = Vec::new();
         match res {
@@ -897,7 +920,7 @@ pub fn cmd_grid(a: &Args) -> i32 {
             let len = y.saturating_sub(x);
             for n in chunk_sizes(len) {
                 for prefix in 0..4u8 {
-                    for cont in 0..6u8 {
+                    for cont in 0..7u8 {
                         for buffered in [false, true] {
                             todo.push(("range".into(), len, Some((x, y)), Hint::Exact, GridCase { prefix, n, buffered, cont }));
                         }
@@ -911,7 +934,7 @@ pub fn cmd_grid(a: &Args) -> i32 {
         for len in [0usize, 1, 2, 5, 8] {
             for n in chunk_sizes(len) {
                 for prefix in 0..4u8 {
-                    for cont in 0..6u8 {
+                    for cont in 0..7u8 {
                         for buffered in [false, true] {
                             if buffered && kinds::is_wrapped(kind) && n > 4096 {
                                 // documented: the wrapper over an arbitrary iterator allocates chunk_size slots
@@ -929,7 +952,7 @@ pub fn cmd_grid(a: &Args) -> i32 {
     }
     let total = todo.len();
     for (kind, len, range, hint, gc) in todo {
-        let my = idx % nshards == shard && only.map(|o| o == idx).unwrap_or(true);
+        let my = idx % nshards == shard && only.map(|o| o == idx).unwrap_or(true) && only_cont.map(|c| c == gc.cont as u64).unwrap_or(true);
         if my && (!reduced || idx % 37 == 0) {
             let (desc, problems) = run(&kind, len, range, hint, gc, idx);
             cases += 1;
@@ -949,7 +972,8 @@ pub fn cmd_grid(a: &Args) -> i32 {
                         replay.push("--boxed=1".into());
                     }
                     replay.push(format!("--only={}", idx));
-                    let mut j = violation_json("GRID", &["C16"], &problems.join("; "), desc, replay);
+                    let props: &[&str] = if gc.cont == 6 { &["C16", "C12"] } else { &["C16"] };
+                    let mut j = violation_json("GRID", props, &problems.join("; "), desc, replay);
                     j.put("kind", J::s(&kind));
                     j.put("len", J::u(len));
                     emit(j);
@@ -980,7 +1004,7 @@ pub fn cmd_grid(a: &Args) -> i32 {
         .set("grid_size", J::u(total))
         .set("cases", J::u64(cases))
         .set("distinct_nontrivial", J::u64(nontrivial))
-        .set("exhaustive", J::B(!reduced && only.is_none()))
+        .set("exhaustive", J::B(!reduced && only.is_none() && only_cont.is_none()))
         .set("debug_assertions", J::B(cfg!(debug_assertions)))
         .set("per_kind", J::from_map(&per_kind))
         .set("violations", J::u64(violations))
@@ -1381,6 +1405,9 @@ fn zst_case<C: ConcurrentIter<Item = Z>>(it: C, len: usize, style: usize, n: usi
             while let Some(c) = it.next_chunk(n) {
                 let b = c.begin_idx;
                 let l = c.values.len();
+                if l == 0 || l > n || (l < n && b + l != len) {
+                    bad_idx.fetch_add(1, Relaxed);
+                }
                 let mut k = 0;
                 for _z in c.values {
                     mark(b + k);
@@ -1396,6 +1423,10 @@ fn zst_case<C: ConcurrentIter<Item = Z>>(it: C, len: usize, style: usize, n: usi
             let mut b = it.buffered_iter(n);
             while let Some(c) = b.next() {
                 let bg = c.begin_idx;
+                let l = c.values.len();
+                if l == 0 || l > n || (l < n && bg + l != len) {
+                    bad_idx.fetch_add(1, Relaxed);
+                }
                 let mut k = 0;
                 for _z in c.values {
                     mark(bg + k);
@@ -1428,7 +1459,7 @@ fn zst_case<C: ConcurrentIter<Item = Z>>(it: C, len: usize, style: usize, n: usi
         return Err(format!("{} of {} zero-sized elements were delivered ({} left for into_seq_iter)", d, len, rest));
     }
     if bad_idx.load(Relaxed) > 0 {
-        return Err("an index outside the source / a chunk whose length disagrees with its items was reported".into());
+        return Err("an index outside the source was reported, or a chunk broke its contract (empty, longer than requested, short without ending at the last position, length disagreeing with its items)".into());
     }
     Ok(())
 }
